@@ -29,13 +29,54 @@ def _form_tag(line, out):
             cw = "" if w[3:] == "-" else bytes.fromhex(w[3:]).decode("latin1")
         if w.startswith("dd:"):
             dd = "" if w[3:] == "-" else bytes.fromhex(w[3:]).decode("latin1")
+    if " cg:1" in line:
+        cw = "GONE"
     kind = "absolute" if dd.startswith("/") else "relative"
     clean = dd not in ("", ".") and not dd.endswith("/") and "//" not in dd and "/./" not in dd and \
         not dd.startswith("./") and not dd.endswith("/.") and ".." not in dd
     return "dstform:cwd=%s:%s-%s:%s" % (cw or "T", kind, "clean" if clean else "unclean", out.split(" ", 1)[0])
 
 
+def _guard_tag(line, out):
+    """distribution of the guard area: where the path lies relative to the root x outcome"""
+    gr = gp = ""
+    for w in line.split(" "):
+        if w.startswith("gr:"):
+            gr = "" if w[3:] == "-" else bytes.fromhex(w[3:]).decode("latin1")
+        if w.startswith("gp:"):
+            gp = "" if w[3:] == "-" else bytes.fromhex(w[3:]).decode("latin1")
+    rel = "equal" if gp == gr else "below" if gr == "" or gp.startswith(gr + "/") else "not-below(dotdot)"
+    return "guard:%s:%s" % (rel, out.split(" ", 1)[0])
+
+
+def _api_surface(ctx):
+    """exported functions of the two anchored files, read from the repository on every run; every one of them has a model
+    counterpart and is called by the harness (recorded in the evidence; an exported function without a counterpart is
+    listed as NOT modelled)"""
+    import os
+    import re
+    known = {"ExtractArchive": "Ex.tarExtractArchiveR / zipExtractArchiveR (v:a, v:missing, v:cut)",
+             "ExtractArchiveWithMask": "Ex.tarExtractArchiveWithMaskR / zipExtractArchiveWithMaskR (v:am, v:missing, v:cut)",
+             "Extract": "Ex.tarExtractDefaultR / zipExtractDefaultR (v:x)",
+             "ExtractWithMask": "Ex.tarExtractWithMaskFrom / zipExtractWithMaskFrom (areas dstform, closefault), "
+                                "Ex.tarExtractR / zipExtractR on the absolute destination (areas extract, dstlinkm)"}
+    out = {}
+    for rel in ("xio/fs/tar/untar.go", "xio/fs/zip/unzip.go"):
+        try:
+            src = open(os.path.join(ctx.repo, rel)).read()
+        except OSError:
+            out[rel] = "unreadable"
+            continue
+        names = re.findall(r"^func ([A-Z]\w*)\(", src, re.M)
+        out[rel] = {n: known.get(n, "NOT modelled, not called by the harness") for n in names}
+        for n in names:
+            if n not in known:
+                ctx.assumptions.append("exported function %s of %s has no model and is not exercised" % (n, rel))
+    ctx.extra["api_surface"] = out
+
+
 def run(ctx):
+    _api_surface(ctx)
     ctx.modelled += [
         "the driver executes the RESOLVING model (Model/ExtractR.lean: walk follows symbolic links as the kernel does, "
         "os.MkdirAll / EnsureNoSymlinks transcribed call by call); C19.resolving_is_lexical proves it equal to the "
@@ -117,6 +158,19 @@ def run(ctx):
         "sparse tar entries and zip64 sizes (archive/tar cannot write the former, the latter needs 4 GiB payloads)",
     ]
     ctx.modelled += [
+        "internal.EnsureNoSymlinks is modelled for ANY pair of clean absolute paths (Ex.relParts = filepath.Rel split at "
+        "separators: `.`, `..` parts for a path that is not below the root; C19.guard_rel_spec: joining the parts to the "
+        "root gives the path back, and below the root they are the components below it) and compared DIRECTLY with the "
+        "code in area guard (overlay accessor in package xio/fs/tar) on pairs inside its documented precondition — the "
+        "path at or below the root — with roots that are directories, links, missing, trees with links, chains and "
+        "missing tails; NOT compared: pairs outside the precondition and a regular file on the way (ENOTDIR: whether "
+        "the guard or the next system call reports it is not constrained, the extraction fails either way — that case "
+        "is compared at the level of whole extractions in area extract)",
+        "the working directory removed (os.Getwd fails; cg:1 in area dstform): Ex.absPath? / tarExtractWithMaskFrom — a "
+        "relative spelling is an error before anything happens (also for an empty archive), an absolute one works "
+        "(C19.gone_cwd)",
+    ]
+    ctx.modelled += [
         "filepath.Abs(dst) is in the model (Ex.absPath; C19.absPath_clean: the root it yields is a clean absolute path "
         "for EVERY spelling, which discharges the GoodPath/NoDots hypotheses of the other theorems — "
         "extract_contained_spelled): area dstform hands the extractors the destination as a caller spells it (relative "
@@ -129,7 +183,9 @@ def run(ctx):
         "its data complete (C19.payload_error_one / payload_error_propagates: an error, the file stays)",
     ]
     ctx.lean(props=["Props.C19"], drivers=["drv_c19"])
-    ctx.harness("./cmd/c19")
+    # white-box accessor for the guard (xio/fs/internal is not importable from outside): area `guard`; if it does not
+    # compile against the working tree core falls back to a build without it (tag nooverlay) and the area is skipped
+    ctx.harness("./cmd/c19", overlay={"xio/fs/tar/verif_c19_guard.go": "c19_guard.go"})
     ctx.diff(area="extract", driver="drv_c19", n={"quick": 8000, "thorough": 150000},
              trivial=lambda l, o: " e:" not in l, tagger=_tag, timeout=(240 if ctx.tier == "quick" else 900),
              theorem="C19.extract_contained / extract_wf / ensureNoSymlinks_spec / payload_error_propagates / "
@@ -143,6 +199,14 @@ def run(ctx):
              trivial=lambda l, o: " e:" not in l, tagger=_form_tag, timeout=(240 if ctx.tier == "quick" else 900),
              theorem="C19.absPath_clean / extract_contained_spelled: the root is Ex.absPath of the working directory and "
                      "the destination as spelled; impl != model on this archive and spelling")
+    if "overlay_fallback" in ctx.extra:
+        ctx.extra["guard_area"] = "skipped: the accessor for internal.EnsureNoSymlinks does not compile against the working tree"
+    else:
+        ctx.diff(area="guard", driver="drv_c19", n={"quick": 600, "thorough": 20000},
+                 trivial=lambda l, o: False, tagger=_guard_tag, timeout=(240 if ctx.tier == "quick" else 900),
+                 theorem="C19.guard_rel_spec / ensureNoSymlinks_spec / guard_error_iff are about Ex.ensureNoSymlinksR; "
+                         "internal.EnsureNoSymlinks called directly != model on this tree and (root, path)")
+        ctx.extra["guard_area"] = "internal.EnsureNoSymlinks called directly through an overlay accessor"
     import shutil
     if shutil.which("strace"):
         ctx.diff(area="closefault", driver="drv_c19", n={"quick": 100, "thorough": 1500},
